@@ -33,7 +33,17 @@ func (fc *FnCtx) execCall(fr *Frame, st *State, reach string, call ssa.CallInstr
 			if ac.Field != name {
 				continue
 			}
-			env := fc.specEnv(st, fc.oldSt, fc.paramVars(fr), fr.fn.Pkg.Pkg, fr, ac.Clause.Text)
+			avars := fc.paramVars(fr)
+			ai := 0
+			if com.IsInvoke() {
+				avars["arg0"] = fc.value(fr, st, com.Value)
+				ai = 1
+			}
+			for _, a := range com.Args {
+				avars[fmt.Sprintf("arg%d", ai)] = fc.value(fr, st, a)
+				ai++
+			}
+			env := fc.specEnv(st, fc.oldSt, avars, fr.fn.Pkg.Pkg, fr, ac.Clause.Text)
 			for _, part := range splitConj(ac.Clause.Expr) {
 				t := env.evalBool(part)
 				fc.oblige(fr, "atcall", name+": "+clauseName(ac.Clause), reach, t, env.quant, nil)
